@@ -1,19 +1,14 @@
 SPECIFICATION Spec
 CONSTANTS
-  Interval = 16
+  Interval = 8
   MaxLen = 6
   Thresholds <- ThoroughThresholds
-  AnswerDelays = {0, 4}
+  AnswerDelays = {0, 2}
   DrainLens = {1, 2}
   HsSlots <- GenHsSlots
   CtxSlots <- GenCtxSlots
   EnvMaxLen = 4
   EnvProduct = TRUE
-  StallKinds <- AllStalls
-  MaxStalls = 2
-  StallMaxLen = 4
-  EstModes <- AllEst
-  EstMaxLen = 3
-INVARIANTS TypeOK InvAccuracy InvTiming InvSilentStop InvCounter InvCompleteness InvFinal InvGoneAtClose InvNoTickAfterUser InvGoneWhenClosing InvGrid
+INVARIANTS TypeOK InvAccuracy InvTiming InvSilentStop InvCounter InvCompleteness InvFinal InvGoneAtClose InvNoTickAfterUser InvGoneWhenClosing
 PROPERTIES NoPingAfterStop Terminates
 CHECK_DEADLOCK FALSE
